@@ -12,21 +12,21 @@ import (
 
 // EvalCtx evaluates spec expressions to terms without touching the state's lines.
 type EvalCtx struct {
-	s      *State
-	old    *State
-	vars   map[string]Val
-	pkg    *ssa.Package
-	locals bool // resolve source-level locals through DebugRefs
-	facts  []string
-	shadow map[string]bool // names bound explicitly (callee parameters at a call site): never the enclosing function's locals
-	err    []string
-	bound  int
-	depth  int
+	s        *State
+	old      *State
+	vars     map[string]Val
+	pkg      *ssa.Package
+	locals   bool // resolve source-level locals through DebugRefs
+	facts    []string
+	shadow   map[string]bool // names bound explicitly (callee parameters at a call site): never the enclosing function's locals
+	err      []string
+	bound    int
+	depth    int
 	factSink *State
-	lenient bool               // assumed clause: references to ghost state that does not exist here void the clause
-	skip    bool
-	qvars  []string            // bound variable names in scope
-	trig   map[string][]string // bound variable -> candidate trigger terms (element reads indexed by it)
+	lenient  bool // assumed clause: references to ghost state that does not exist here void the clause
+	skip     bool
+	qvars    []string            // bound variable names in scope
+	trig     map[string][]string // bound variable -> candidate trigger terms (element reads indexed by it)
 }
 
 func (x *EvalCtx) fail(format string, a ...any) Val {
@@ -523,7 +523,13 @@ func (x *EvalCtx) binary(n *EBinary) Val {
 	case "||":
 		return Val{T: boolT, S: or(x.eval(n.X).S, x.eval(n.Y).S)}
 	case "==>":
-		return Val{T: boolT, S: implies(x.eval(n.X).S, x.eval(n.Y).S)}
+		ante := x.eval(n.X)
+		if ante.S == "false" {
+			// statically false (e.g. defined(local) on a path where the local does not exist): the consequent is
+			// not evaluated, so it may mention names that are out of scope here
+			return Val{T: boolT, S: "true"}
+		}
+		return Val{T: boolT, S: implies(ante.S, x.eval(n.Y).S)}
 	}
 	a, b := x.eval(n.X), x.eval(n.Y)
 	switch n.Op {
@@ -813,6 +819,48 @@ func (x *EvalCtx) callExpr(n *ECall) Val {
 		a := x.eval(n.Args[0])
 		x.s.c.declare("isStatusLine", "(declare-fun isStatusLine (Str) Bool)")
 		return Val{T: boolT, S: app("isStatusLine", a.S)}
+	case "called", "lastresult":
+		// called("pkg.Callee"): that contracted callee has been called on this path; lastresult("pkg.Callee", i): result
+		// i of its latest call
+		kn, ok := n.Args[0].(*EStr)
+		if !ok {
+			return x.fail("%s: the callee key must be a string literal", n.Fn)
+		}
+		if n.Fn == "called" {
+			_, ok := x.s.ghost["lastres|"+kn.V]
+			return Val{T: boolT, S: boolLit(ok)}
+		}
+		if len(n.Args) != 2 {
+			return x.fail("lastresult takes a callee key and a result index")
+		}
+		in, ok := n.Args[1].(*EInt)
+		if !ok {
+			return x.fail("lastresult: the result index must be a literal")
+		}
+		v, ok := x.s.ghost[fmt.Sprintf("lastres|%s|%s", kn.V, in.V)]
+		if !ok {
+			return x.fail("lastresult: %s has not been called on this path", kn.V)
+		}
+		return v
+	case "defined":
+		// defined(name): the source-level local `name` has a value on this path (for call-site and exit clauses
+		// that concern one branch of a function only)
+		id, ok := n.Args[0].(*EIdent)
+		if !ok {
+			return x.fail("defined takes a variable name")
+		}
+		if _, ok := x.vars[id.Name]; ok {
+			return Val{T: boolT, S: "true"}
+		}
+		if nb, ok := x.s.names[id.Name]; ok && x.locals {
+			if _, ok := x.s.env[nb.V]; ok {
+				return Val{T: boolT, S: "true"}
+			}
+			if _, isC := nb.V.(*ssa.Const); isC {
+				return Val{T: boolT, S: "true"}
+			}
+		}
+		return Val{T: boolT, S: "false"}
 	case "repeat":
 		// repeat(s, n): strings.Repeat as a function
 		a, b := x.eval(n.Args[0]), x.eval(n.Args[1])
